@@ -160,10 +160,10 @@ def template_differential(ctx, templates, kind, only_types=None, lit_sample=None
     res = compare_rows(imports, rows, "c03" + kind)
     bad_model, failing = [], []
     for (op, ty, shape, lit, n, cs, obs), (sm, mm) in zip(meta, res):
-        for i, e in sm[:1]:
+        for i, e, _ in sm[:1]:
             c = cs[i] if 0 <= i < len(cs) else ("?", "?")
             failing.append((op, ty, shape, c, e, obs[i] if 0 <= i < len(obs) else None, n))
-        for i, e in mm[:1]:
+        for i, e, _ in mm[:1]:
             c = cs[i] if 0 <= i < len(cs) else ("?", "?")
             bad_model.append((op, ty, shape, c, e, obs[i] if 0 <= i < len(obs) else None))
     ctx.corr[kind + "_template_cases"] = n_eval
@@ -244,7 +244,7 @@ def glue_differential(ctx, tys, cfgs, size, with_lits=True):
                 "      (list_prod G G).\n")
     n_eval = 0
     dist = {}
-    rows, meta = [], []
+    groups = {}   # (ty, fn) -> {"spec", "cs", "runs": [(cfg, obs, datas, src)]}
     for cfg in cfgs:
         chain = Chain(cfg.evm)
         for gi, ty in enumerate(tys):
@@ -277,12 +277,21 @@ def glue_differential(ctx, tys, cfgs, size, with_lits=True):
                     spec = f"narrow_row {X.nty(*ty)} {X.zl(lo // 2)} {X.zl(hi // 2)} G{gi}"
                 else:
                     spec = f"spec_row {X.nty(*ty)} {aop} {sh} {X.zl(lit)} G{gi}"
-                rows.append({"spec": spec, "obs": obs})
-                meta.append((ty, fn, cfg, cs, obs, datas, src))
-    res = compare_rows(imports, rows, "c03glue", shard=250)
+                g = groups.setdefault((ty, fn), {"spec": spec, "cs": cs, "runs": []})
+                g["runs"].append((cfg, obs, datas, src))
+    keys = list(groups)
+    rows = [{"spec": groups[k]["spec"], "multi": [r[1] for r in groups[k]["runs"]]} for k in keys]
+    res = compare_rows(imports, rows, "c03glue", shard=60)
     failing = []
-    for (ty, fn, cfg, cs, obs, datas, src), (sm, _) in zip(meta, res):
-        for i, e in sm[:1]:
+    for (ty, fn), (sm, _) in zip(keys, res):
+        g = groups[(ty, fn)]
+        seen = set()
+        for i, e, m in sm:
+            if m in seen:
+                continue
+            seen.add(m)
+            cfg, obs, datas, src = g["runs"][m]
+            cs = g["cs"]
             x, y = cs[i] if 0 <= i < len(cs) else (0, 0)
             got = obs[i] if 0 <= i < len(obs) else None
             failing.append({"type": tyname(ty), "function": fn, "config": cfg.name, "args": [str(x), str(y)],
